@@ -80,10 +80,12 @@ def _sub_job(name, unsub, mode, quick, thorough, reach):
     return dict(name=name, tu='harness/w_sub.cpp', entry='h_sub', engine='B', clock=True, defs={'VK_MODE': mode, 'VK_UNSUB': unsub}, defs_quick={'VK_STEPS': quick}, defs_thorough={'VK_STEPS': thorough}, reach=reach, samples=8)
 P['C14'] = dict(
     level_text='The real mqtt_client subscribes / unsubscribes (1-2 topic filters with symbolic characters and option bytes, optional Subscription Identifier over its whole range, optional User Property) against a broker model; every order of write completion, correct acknowledgement (any admissible code per topic), malformed acknowledgement (one code too many / too few, inadmissible code, inadmissible code hidden among admissible ones, unknown id), chunking and reconnect is explored. Monitor: the request decoded from the wire by the reference decoder equals the call; success implies a well-formed acknowledgement for that id sent after the request was received, and the handler\'s codes are that acknowledgement\'s codes in order.',
-    level_note='Bounds: one request, 1 malformed acknowledgement, 1 reconnect, 5 (quick) / 7 (thorough) steps.',
+    level_note='Bounds: one request, 1 malformed acknowledgement, 1 reconnect, 5 (quick) / 7 (thorough) steps. Jobs *_stale_ack: two requests in a row on one guided schedule with forks (acknowledgement overtaking the write completion and orphaned by a loss in three flavours / sent twice / unsolicited, all code combinations from three admissible codes), then a second request that reuses the packet identifier: no request completes with a verdict the broker sent before it had received that request.',
     assumptions=_pub_assume,
     jobs=[_sub_job('subscribe_verdicts', 0, 14, 5, 7, ['request-on-wire', 'acked', 'bad-ack', 'reconnected', 'success-checked']),
-          _sub_job('unsubscribe_verdicts', 1, 14, 5, 7, ['request-on-wire', 'acked', 'bad-ack', 'success-checked'])])
+          _sub_job('unsubscribe_verdicts', 1, 14, 5, 7, ['request-on-wire', 'acked', 'bad-ack', 'success-checked']),
+          dict(name='subscribe_stale_ack', tu='harness/w_sub.cpp', entry='h_sub_stale', engine='B', clock=True, defs={'VK_MODE': 14, 'VK_UNSUB': 0}, reach=['first-checked', 'second-checked', 'ack-orphaned-by-loss', 'ack-repeated', 'ack-unsolicited', 'retransmission-answered'], samples=8),
+          dict(name='unsubscribe_stale_ack', tu='harness/w_sub.cpp', entry='h_sub_stale', engine='B', clock=True, defs={'VK_MODE': 14, 'VK_UNSUB': 1}, reach=['first-checked', 'second-checked', 'ack-orphaned-by-loss', 'ack-repeated', 'ack-unsolicited', 'retransmission-answered'], samples=8)])
 P['C02']['jobs'] += [_sub_job('subscribe_no_loss', 0, 2, 4, 6, ['request-completed']), _sub_job('unsubscribe_no_loss', 1, 2, 4, 6, ['request-completed'])]
 for _j in P['C02']['jobs'][-2:]: _j['defs'] = dict(_j['defs'], VK_DROP=9)
 
@@ -138,10 +140,10 @@ P['C19']['jobs'] += [dict(name='stream_bytes', tu='harness/w_hostile.cpp', entry
 
 P['C12'] = dict(
     level_text='On the real mqtt_client under virtual time (stub timers fire in deadline order): configured keep-alive and Server Keep Alive are 16-bit symbols, the negotiated K ranges over 1..20 s (and 0). Checked: ping timer armed with exactly K s and read timeout with exactly 1.5 K s after CONNACK; first PINGREQ (alone in its write) no later than K after CONNACK, the next no later than K after the previous; a silent connection is given up exactly 1.5 K after the last byte arrived - after CONNACK or after a PINGRESP - and never earlier, followed by a reconnect; a reconnect with another Server Keep Alive re-arms both timers with the new value; with K = 0 nothing is armed and nothing happens.',
-    level_note='Bounds: K <= 20 s (symbolic), two ping cycles, one reconnect. Real time is replaced by the virtual clock of the stub timers; transport latency is zero. Job keepalive_arithmetic checks both timer durations right after CONNACK for EVERY 16-bit configured / Server Keep Alive value (no time line).',
+    level_note='Bounds: K <= 20 s (symbolic), two ping cycles, one reconnect, one traffic pattern besides silence (a QoS 0 publish at K/2 after CONNACK and 1 ms before the second ping is due). Real time is replaced by the virtual clock of the stub timers; transport latency is zero. Job keepalive_arithmetic checks both timer durations right after CONNACK for EVERY 16-bit configured / Server Keep Alive value (no time line).',
     assumptions=_pub_assume[:2] + ['timers fire in deadline order (virtual clock); network events take no time'],
     jobs=[dict(name='keepalive', tu='harness/w_ka.cpp', entry='h_keepalive', engine='B', clock=True, defs_quick={'VK_KMAX': 20}, defs_thorough={'VK_KMAX': 60},
-               reach=['no-keepalive', 'first-ping', 'timeout-reconnect', 'second-ping', 'timeout-after-traffic', 'new-keepalive', 'new-keepalive-zero'], samples=10),
+               reach=['no-keepalive', 'first-ping', 'timeout-reconnect', 'second-ping', 'timeout-after-traffic', 'new-keepalive', 'new-keepalive-zero', 'traffic-before-first-ping', 'traffic-before-second-ping'], samples=10),
           dict(name='keepalive_arithmetic', tu='harness/w_ka.cpp', entry='h_ka_arith', engine='B', clock=True, defs_quick={'VK_KMAX': 20}, defs_thorough={'VK_KMAX': 60}, reach=['zero', 'server-keep-alive', 'configured-keep-alive'], samples=6)])
 
 P['C13'] = dict(
